@@ -20,7 +20,8 @@ def main():
         "sample_to_recon", "recon_to_sample", "lab_to_step", "step_to_lab", "lab_to_recon", "recon_to_lab",
         "dty_values_grain_in_beam(_sincos)", "x_y_y0_omega_to_dty", "dty_to_dtyi", "dtyi_to_dty", "step_omega_to_dty(i)",
         "recon_omega_to_dty(i)", "dtyimask_from_{sample,step,recon}(_sincos)", "sino_shift_and_pad")])
-    ck.bound("unbounded: every coordinate, angle, offset and step is a free real (ystep != 0); recon_shape two free integers >= 0",
+    ck.bound("call histories: 13 conversion functions, each called twice on one module instance with ONE argument changed (symbolic old / new value, the others concrete) against the first call of a pristine module instance",
+             "unbounded: every coordinate, angle, offset and step is a free real (ystep != 0); recon_shape two free integers >= 0",
              "one point per query (all functions are elementwise)")
     ck.assume("real-arithmetic model: IEEE rounding of + - * / is outside the claim (DESIGN 2.8)",
               "sin/cos of omega: fresh pair with c^2+s^2=1 (over-approximation, sound for identities)",
@@ -309,6 +310,29 @@ def main():
     harness.run_identities(ck, "iradon-pad", fn_pad, replay_pad, tmo, expect_paths=1)
     for n, theta, padv in CONFIGS:
         harness.run_identities(ck, "iradon-backprojection n=%d angles=%d pad=%d" % (n, len(theta), padv), mk_iradon(n, theta, padv), replay_iradon(n, theta, padv), tmo, expect_paths=1)
+    # ---- the conversions are pure: a second call with one argument changed equals the first call of a pristine module instance (module-level memo tables would show here)
+    HP = dict(sx=1.25, sy=-0.75, y0=0.125, dty=2.5, omega=33.0, ystep=0.05, ymin=-3.0, n0=41.0, n1=41.0)
+    HSIG = {"sample_to_lab": ("sx", "sy", "y0", "dty", "omega"), "lab_to_sample": ("sx", "sy", "y0", "dty", "omega"), "sample_to_step": ("sx", "sy", "ystep"), "step_to_sample": ("sx", "sy", "ystep"),
+            "sample_to_recon": ("sx", "sy", "SHAPE", "ystep"), "recon_to_sample": ("sx", "sy", "SHAPE", "ystep"), "lab_to_recon": ("sx", "sy", "y0", "dty", "omega", "SHAPE", "ystep"),
+            "recon_to_lab": ("sx", "sy", "y0", "dty", "omega", "SHAPE", "ystep"), "dty_values_grain_in_beam": ("sx", "sy", "y0", "omega"), "step_omega_to_dty": ("sx", "sy", "omega", "y0", "ystep"),
+            "recon_omega_to_dty": ("sx", "sy", "omega", "y0", "SHAPE", "ystep"), "dty_to_dtyi": ("dty", "ystep", "ymin"), "dtyi_to_dty": ("dty", "ystep", "ymin")}
+    def hcall(m, fname, P):
+        a = [((P["n0"], P["n1"]) if k == "SHAPE" else P[k]) for k in HSIG[fname]]
+        r = getattr(m, fname)(*a)
+        return [x for part in (r if isinstance(r, (tuple, list)) else [r]) for x in np.asarray(part, dtype=object).ravel()]
+    def mk_hist(fname):
+        keys = [k for k in HSIG[fname] if k != "SHAPE"] + (["n0"] if "SHAPE" in HSIG[fname] else [])
+        def run(): return dict(goals=harness.history_goals(G, fname, hcall, HP, order=keys), inputs={})
+        return run
+    def replay_hist(vals, label):
+        fname = label.split()[1].split("(")[0]; k = label.split("(")[1].split(" ")[0]
+        for newv in (HP[k] * 1.5 + 0.25, -HP[k] - 0.125):
+            m1 = harness.fresh_module_copy(G); m0 = harness.fresh_module_copy(G)
+            hcall(m1, fname, HP); got = [float(x) for x in hcall(m1, fname, dict(HP, **{k: newv}))]; want = [float(x) for x in hcall(m0, fname, dict(HP, **{k: newv}))]
+            if not np.allclose(got, want, rtol=1e-12, atol=1e-12, equal_nan=True): return True, "geometry.%s depends on the call history: with %s=%r after a call with %s=%r it returns %s, a first call returns %s" % (fname, k, newv, k, HP[k], got, want)
+        return False, "second call equals a pristine first call on the real module"
+    for fname in HSIG:
+        harness.run_identities(ck, "history %s" % fname, mk_hist(fname), replay_hist, tmo, vacuity=False, budget_s=120, keyfn=lambda n, l: "geometry.py:%s:call-history" % l.split()[1].split("(")[0])
     harness.run_identities(ck, "inverse-pairs", fn_inverse, replay, tmo, expect_paths=1)
     harness.run_identities(ck, "in-beam", fn_inbeam, replay, tmo, expect_paths=1)
     harness.run_identities(ck, "discretisation-masks-shift-pad", fn_discrete, replay, tmo, expect_paths=1)
